@@ -93,7 +93,8 @@ LawProject ==
 (* messages (at most two populated fields), half dense random ones.       *)
 GenUpd(k) ==
   LET dense == (k % 2 = 0)
-      old == IF dense THEN RandMsg(k) ELSE RandSparse(k)
+      \* (every ninth tuple starts from nothing stored: the first write of a resource)
+      old == IF k % 9 = 4 THEN Empty ELSE IF dense THEN RandMsg(k) ELSE RandSparse(k)
       wr  == IF dense THEN RandMsg(k) ELSE RandSparse(k)
       mk  == k % 7
       M   == CASE mk = 0 -> NilMask
@@ -158,6 +159,12 @@ ProjFails(t) ==
   \cup (IF ~MaskValid(mask) /\ t.valid # "InvalidArgument" THEN {"invalid-mask-not-reported"} ELSE {})
   \cup (IF MaskValid(mask) /\ t.panic = "" /\ t.res # Project(t.msg, mask) THEN {"not-the-projection"} ELSE {})
   \cup (IF t.panic = "" /\ t.via # "filter" /\ t.post # t.msg THEN {"read-mutated-stored"} ELSE {})
+  \* whatever an invalid path is taken to mean, it cannot select a field it does not even name:
+  \* a populated field of the result has its top-level name in some path of the mask
+  \* (for valid masks this follows from the projection clause)
+  \cup (IF ~mask.nil /\ t.panic = ""
+           /\ \E q \in LeafPaths : LeafVal(t.res, q) # LeafVal(Empty, q) /\ ~\E p \in PathSet(mask) : p # <<>> /\ p[1] = q[1]
+        THEN {"unnamed-field-selected"} ELSE {})
 
 Fails(t) == IF t.k = "upd" THEN UpdFails(t) ELSE ProjFails(t)
 BadLines == { k \in 1..Len(Obs) : Fails(Obs[k]) # {} }
